@@ -68,6 +68,7 @@ type opRec struct {
 	f      int
 	kind   string
 	t0, t1 time.Duration // t1 < 0 while running
+	ok     bool          // the call returned nil
 }
 
 type snapRec struct {
@@ -80,17 +81,18 @@ type snapRec struct {
 }
 
 type world struct {
-	s        *simrt.Sim
-	st       cacheAPI
-	cacheDir string
-	files    []*fileRec
-	byName   map[string]*fileRec
-	ops      []*opRec
-	cfg      store.CleanupConfig
-	base     uint64 // bytes of the virtual disk used by others
-	evict    bool
-	tCreate  time.Duration
-	period   time.Duration // interval + the simulator's per-timer offset of the cache ticker
+	s           *simrt.Sim
+	st          cacheAPI
+	cacheDir    string
+	files       []*fileRec
+	byName      map[string]*fileRec
+	ops         []*opRec
+	cfg         store.CleanupConfig
+	base        uint64 // bytes of the virtual disk used by others
+	evict       bool
+	tCreate     time.Duration
+	period      time.Duration // interval + the simulator's per-timer offset of the cache ticker
+	restartedAt time.Duration // instant of the (one) restart of the store, 0 if none
 }
 
 func exists(p string) bool {
@@ -218,6 +220,7 @@ func (w *world) begin(f *fileRec, kind string) *opRec {
 
 func (w *world) end(o *opRec, err error) {
 	o.t1 = w.s.Now()
+	o.ok = err == nil
 	if o.t1 != o.t0 {
 		w.s.Probe("op_took_fake_time")
 	}
@@ -455,6 +458,21 @@ func (w *world) judgePass(k int, tk time.Duration, before []snapRec, opLogStart 
 				s.Fail("idle_file_survived_cleanup", "pass %d at %v (mode %d) left f%d on disk: %s", k, tk, mode, i, why)
 			case exp && !cur:
 				s.Probe("idle_removed")
+				// The recorded last access (b.lat) is coarse by design: an access
+				// is written down only if it is at least 5 minutes newer than the
+				// last one recorded. So a successful read at r guarantees a recorded
+				// value newer than r-5min, and a file read less than TTI-6min ago
+				// cannot be idle for this pass, whatever the record says. (Judged
+				// only for reads after a restart of the store: the set-up ages
+				// files by writing the recorded value directly, which the entries
+				// loaded before do not see.)
+				if !expired && !w.evict && mode == passNormal && w.restartedAt > 0 {
+					for _, o := range w.ops {
+						if o.f == i && o.kind == "read" && o.ok && o.t0 > w.restartedAt && o.t1 >= 0 && o.t1 < tk-minute && tk-o.t1 < w.cfg.TTI-6*minute {
+							s.Fail("recently_read_file_removed", "pass %d at %v removed f%d as idle although it was read at %v, %v ago (idle limit %v; recorded last access %v)", k, tk, i, o.t1, tk-o.t1, w.cfg.TTI, b.lat.Sub(s.StartTime()))
+						}
+					}
+				}
 			case !exp && !cur:
 				if w.evict {
 					s.Probe("maybe_evicted")
@@ -800,20 +818,30 @@ func periodic(s *simrt.Sim, tier string) {
 		eps = s.TimerEpsAfter(2)
 	}
 	w.period = interval + eps
-	if simple {
-		st, err := store.NewSimpleStore(store.SimpleStoreConfig{UploadDir: uploadDir, CacheDir: w.cacheDir, UploadCleanup: upCfg, CacheCleanup: cfg}, tally.NoopScope)
-		if err != nil {
-			s.InfraError("NewSimpleStore: %v", err)
+	openStore := func() {
+		if simple {
+			st, err := store.NewSimpleStore(store.SimpleStoreConfig{UploadDir: uploadDir, CacheDir: w.cacheDir, UploadCleanup: upCfg, CacheCleanup: cfg}, tally.NoopScope)
+			if err != nil {
+				s.InfraError("NewSimpleStore: %v", err)
+			}
+			w.st = st
+		} else {
+			st, err := store.NewCAStore(store.CAStoreConfig{UploadDir: uploadDir, CacheDir: w.cacheDir, Capacity: capacity, UploadCleanup: upCfg, CacheCleanup: cfg}, tally.NoopScope)
+			if err != nil {
+				s.InfraError("NewCAStore: %v", err)
+			}
+			w.st = st
 		}
-		w.st = st
-	} else {
-		st, err := store.NewCAStore(store.CAStoreConfig{UploadDir: uploadDir, CacheDir: w.cacheDir, Capacity: capacity, UploadCleanup: upCfg, CacheCleanup: cfg}, tally.NoopScope)
-		if err != nil {
-			s.InfraError("NewCAStore: %v", err)
-		}
-		w.st = st
 	}
-	defer w.st.Close()
+	openStore()
+	// one restart of the process in some runs whose file map cannot evict (the
+	// exact-set oracle applies there): same directories, empty file map, new
+	// cleanup tickers
+	restartAfter := 0
+	if !w.evict && tp.Chance(350) {
+		restartAfter = 1 + tp.Draw(3)
+	}
+	defer func() { w.st.Close() }()
 	s.Disk().FaultFn = w.hook
 
 	// ---- files with drawn ages, access times, persist flags ----
@@ -923,6 +951,21 @@ func periodic(s *simrt.Sim, tier string) {
 		w.judgePass(k, tk, before, mark)
 		w.checkProtected("after pass")
 		passes++
+		if restartAfter == k {
+			restartAfter = 0
+			// two minutes after the pass: off the operation grid (+0 / +3 min)
+			w.sleepUntil(tk + 2*minute)
+			w.st.Close()
+			eps := s.TimerEpsAfter(1)
+			if !upCfg.Disabled {
+				eps = s.TimerEpsAfter(2)
+			}
+			w.tCreate, w.period = s.Now(), interval+eps
+			w.restartedAt = s.Now()
+			openStore()
+			s.Probe("periodic_restart")
+			k = 0
+		}
 		if done == nTasks {
 			// run on until everything unprotected had the chance to expire
 			if passes >= 3 && k >= 3 {
